@@ -1,12 +1,10 @@
 import Gaftools.Props.C07
 import Gaftools.Props.C07b
 import Gaftools.Props.C07c
-import Gaftools.Props.TieA
 #print axioms Gaftools.C07.write_segs
 #print axioms Gaftools.C07.write_links
 #print axioms Gaftools.C07.write_links_subset
 #print axioms Gaftools.C07.read_write_read
-#print axioms Gaftools.TieA.eDir_gen_eq_model
 #print axioms Gaftools.C07.orderFiles_spec
 #print axioms Gaftools.C07.csv_spec
 #print axioms Gaftools.C07.complete_sorted
